@@ -18,7 +18,7 @@ FAMILY_OPS = {
                (6, "get"), (5, "set_s"), (4, "slice"), (4, "mask"), (4, "iop"), (3, "mv"), (3, "ro"), (5, "release"), (2, "gcp")],
     "array2d": [(6, "d_new"), (8, "d_item"), (8, "d_slice"), (7, "d_set_s"), (6, "d_set_a"), (5, "d_set_1d"), (5, "d_mask_get"),
                 (5, "d_mask_set"), (4, "d_bad"), (4, "release"), (2, "gcp")],
-    "varray": [(6, "v_new"), (8, "v_row"), (6, "v_slice"), (5, "v_mask"), (7, "v_set_row"), (5, "v_set_v"), (5, "v_size"),
+    "varray": [(6, "v_new"), (8, "v_row"), (6, "v_slice"), (5, "v_mask"), (7, "v_set_row"), (5, "v_set_v"), (5, "v_set_m"), (5, "v_size"),
                (4, "v_resize"), (4, "v_ro"), (4, "v_bad"), (6, "get"), (5, "set_s"), (4, "iop"), (3, "ro"), (8, "release"), (3, "gcp")],
     "string": [(6, "s_new"), (9, "s_get"), (6, "s_slice"), (5, "s_mask"), (9, "s_set"), (5, "s_set_m"), (5, "s_set_v"), (4, "s_eq"),
                (4, "s_ro"), (4, "s_bad"), (6, "release"), (2, "gcp")],
@@ -61,7 +61,7 @@ def gen_family_op(r, fam, o, op, maxn, gen_slice):
         op["n"] = r.range(0, 5)
         op["sizes"] = [r.range(0, 4) for _ in range(5)]
         op["how"] = r.choice(["sizes", "uniform", "empty"])
-    elif o in ("v_mask", "s_mask", "s_set_m"):
+    elif o in ("v_mask", "s_mask", "s_set_m", "v_set_m"):
         op["m"] = [r.below(2) for _ in range(8)]
         op["dlen"] = r.weighted([(9, 0), (1, 1)])
         op["k"] = r.below(64)
@@ -601,6 +601,7 @@ class FamilyMixin:
             return
         nh = self.Handle(got[1], "varr", h.tname, h.store, [h.idx[k] for k in range(n) if bits[k]], h.writable, True)
         nh.vtype = h.vtype
+        nh.ulen = n
         self.add(nh)
 
     def stale_rows(self, rowstores):
@@ -674,6 +675,65 @@ class FamilyMixin:
             self.stale_rows([h.store.vals[h.idx[k]] for k in sel])
             for j, k in enumerate(sel):
                 h.store.vals[h.idx[k]].vals = list(svals[j])
+
+    def op_v_set_m(self, op):
+        """va[mask] = FixedArray (elements of every selected item) / = FixedVArray (replace the selected items)"""
+        h = self.pick_va(op)
+        if not h:
+            return False
+        form = op["form"]
+        self.sig_ctx = ("varray-setitem-mask-" + ("elements" if form == "scalar" else "items-" + form), h.hkind(), h.vtype)
+        n = len(h.idx)
+        bits = (op["m"] * (n + 2))[:n + op["dlen"]]
+        if h.masked and len(bits) != n and len(bits) == getattr(h, "ulen", None):
+            bits = bits + [1]        # the unmasked length is accepted (documented non-strict match): not exercised
+        badlen = len(bits) != n
+        sel = [k for k in range(min(n, len(bits))) if bits[k]]
+        if not h.writable:
+            self.inc("fault.write_via_readonly")
+        if form == "scalar":
+            sizes = sorted(set(len(h.store.vals[h.idx[k]].vals) for k in sel))
+            ln = sizes[0] if sizes else 1
+            data = [self.fresh_value(h.tname, op["v"] * 16 + c) for c in range(ln)]
+            got = self.call(h.real.__setitem__, self.make_mask(bits), self.make_array(h.tname, data))
+            if not badlen and h.writable and len(sizes) > 1:
+                # items of different sizes: raises part-way; which items were written before is unspecified: resynchronise
+                self.expect(got, True, "va[mask] = array of %d onto items of sizes %r" % (ln, sizes))
+                for k in sel:
+                    rs = h.store.vals[h.idx[k]]
+                    row = h.real[k]
+                    rs.vals = [tuple(PT.ARRAYS[h.tname].flat(row[c])) for c in range(len(row))]
+                return
+            bad = badlen or not h.writable
+            self.expect(got, bad, "va[mask] = array of %d (mask %d, items %d, masked %s, writable %s)" % (ln, len(bits), n, h.masked, h.writable))
+            if not bad:
+                for k in sel:
+                    h.store.vals[h.idx[k]].vals = list(data)
+        else:
+            cnt = len(sel)
+            ln = n if form == "full" else cnt
+            src = getattr(imath, h.vtype)(ln)
+            svals = []
+            for k in range(ln):
+                sz = (op["k"] + k) % 4
+                src.size[k] = sz
+                rowv = [self.fresh_value(h.tname, op["v"] * 32 + k * 4 + c + 3) for c in range(sz)]
+                if sz:
+                    row = src[k]
+                    for c in range(sz):
+                        row[c] = self.to_real(h.tname, rowv[c])
+                    del row
+                svals.append(rowv)
+            got = self.call(h.real.__setitem__, self.make_mask(bits), src)
+            # documented refusal: masked references do not support mask assignment of items
+            bad = badlen or not h.writable or h.masked
+            self.expect(got, bad, "va[mask] = varray of %d (mask %d, selected %d, items %d, masked %s, writable %s)" % (ln, len(bits), cnt, n, h.masked, h.writable))
+            if not bad:
+                self.stale_rows([h.store.vals[h.idx[k]] for k in sel])
+                j = 0
+                for k in sel:
+                    h.store.vals[h.idx[k]].vals = list(svals[k] if ln == n else svals[j])
+                    j += 1
 
     def op_v_size(self, op):
         h = self.pick_va(op)
